@@ -399,7 +399,7 @@ def interp_expected(ctx, cases, step_cap=20000):
         ctx.maxi("interp_max_steps", prog.max_steps)
 
 
-def pipeline(ctx, cases, deadline_ms=4000):
+def pipeline(ctx, cases, deadline_ms=1500):
     """bytecode -> DEX -> DAD -> javac (elimination rounds) -> one JVM; interpreter expectations. Mutates the cases."""
     if not J.available():
         ctx.inconclusive("javac/java not found")
@@ -507,9 +507,24 @@ def subject_mechanism(m, symptom, src, failing_subjects=()):
         if shape == "cc" and "-long" in base and symptom == "wrong-value":
             return base + "-long-constant-operands-printed-as-int-literals"
         return "%s-const-%s-%s" % (base, {"cp": "lhs", "pc": "rhs", "cc": "both"}[shape], symptom)
-    if kind in ("nest", "seq", "switch", "decl", "type"):
-        return "%s-%s-%s" % (kind, re.sub(r"[^A-Za-z0-9]+", "-", base).strip("-"), symptom)
+    if kind in G.STRUCT_KINDS:
+        return structural_mechanism(m.subject)
     return "%s-%s" % (base, symptom)
+
+
+# Root-cause groups established by hand triage of the single-subject pools (first match wins). A structural subject that fails and is
+# not listed here gets "<kind>-<subject>" as its own mechanism, so a new defect never hides under an old name.
+STRUCT_GROUPS = [
+]
+
+
+def structural_mechanism(subject):
+    """structural defects show different symptoms in different contexts (wrong value, javac error, endless loop): the name carries none"""
+    for rx, name in STRUCT_GROUPS:
+        if re.fullmatch(rx, subject):
+            return name
+    kind, base = subject.split(":", 1)
+    return "%s-%s" % (kind, re.sub(r"[^A-Za-z0-9]+", "-", base).strip("-"))
 
 
 def judge(ctx, cases, label):
@@ -572,7 +587,7 @@ def phase_single(ctx, arg):
         m = c.meta
         mech = subject_mechanism(m, symptom, c.src, failing_subjects)
         report(ctx, c, mech, what_of(symptom), detail)
-        table.setdefault(m.subject, {})[symptom] = mech
+        table.setdefault(m.subject, {})["*" if m.subject.split(":")[0] in G.STRUCT_KINDS else symptom] = mech
     covered = sorted({m.subject for m in methods})
     ctx.extra["bad_features"] = table
     ctx.extra["single_subjects_covered"] = len(covered)
@@ -638,24 +653,33 @@ def phase_multi(ctx, arg):
             ctx.sample({"pool": pool, "features": sorted(c.meta.features), "bytecode": I.listing(c.units), "decompiled": c.src, "tuples": len(c.tuples)})
     # explain-away: neutralise the known-bad features whose single-feature symptom matches, re-run, repeat
     pending = [{"orig": c, "cur": c, "symptom": s, "detail": d, "attr": []} for c, s, d in bad]
-    for rnd in range(4):
+    for rnd in range(5):
         if not pending:
             break
         nxt = []
         for p in pending:
             m = p["cur"].meta
-            cands = {f for f in m.features if f in table and p["symptom"] in table[f]}
+            sym = p["symptom"]
+            # tier 1: instruction-level features whose single-subject symptom is the one observed; tier 2: structural features
+            t1 = {f for f in m.features if f in table and sym in table[f]}
+            t2 = {f for f in m.features if f in table and "*" in table[f] and (f != "throw:div-or-rem" or sym == "exception-lost")}
             m2 = done = None
-            if cands:
+            for tier, cands in ((1, t1), (2, t2)):
+                if not cands:
+                    continue
                 try:
-                    m2, done = G.neutralise(m, cands)
-                except G.TooBig:
+                    m2, done = (G.neutralise if tier == 1 else G.neutralise_struct)(m, cands)
+                except (G.TooBig, AssertionError):
                     m2 = None
-            if not cands or not done or m2 is None:
+                if m2 is not None and done:
+                    for f in sorted(done):
+                        if f in table:
+                            p["attr"].append((f, sym, table[f].get(sym) or table[f]["*"]))
+                    break
+                m2 = None
+            if m2 is None:
                 finish_unattributed(ctx, p, pool)
                 continue
-            for f in sorted(done):
-                p["attr"].append((f, p["symptom"], table[f][p["symptom"]]))
             p["m2"] = m2
             nxt.append(p)
         if not nxt:
